@@ -378,7 +378,7 @@ func NewReader(r io.Reader, b int) (*Reader, error) {
 // Read a single feature and return it or an error.
 func (r *Reader) Read() (f feat.Feature, err error) {
 	line, err := r.r.ReadBytes('\n')
-	if err != nil {
+	if err != nil && (err != io.EOF || len(line) == 0) {
 		return
 	}
 	r.line++
